@@ -12,11 +12,13 @@
   Level A: the key producer is a parameter with contract `SplitOK`. Level B (`level_b_*`): the
   model of `hibitset::BitProducer::split` (three split levels, descend on a single bit,
   `average_ones` arbitrary) satisfies the contract for every producer reachable from a fresh
-  iterator.
+  iterator. Level C (`level_c_*`, end of file): `split` and the real `average_ones` on machine
+  words refine Level B.
 -/
 import SpecsModel.Join.LemmasPar
 import SpecsModel.Join.LemmasSpec
 import SpecsModel.Join.LemmasHiOps
+import SpecsModel.Join.WordPar
 namespace SpecsModel.C07
 open SpecsModel Join
 
@@ -207,5 +209,109 @@ example :
          [63, 64, 65, 66].map (fun j => (ws.store 1).vals.get j))
      | _, _ => ([], [], [], []))
     = ([65, 63, 64], [63, 64, 65], [2, 3, 4, 4], [2, 3, 4, 4]) := by decide +kernel
+
+/-! ### Level C: machine words
+
+  `BitProducer::split` (src/iter/parallel.rs) and the real `average_ones` (src/util.rs) of hibitset
+  0.6.4 transcribed with machine-word operations (SpecsModel/Join/{WordSplit, WordAvg}.lean), proved
+  to commute with the abstraction `bits` of Level B. Nothing about words remains assumed. -/
+
+section LevelC
+open HiBitSet
+
+/-- **C07, Level C, `average_ones`.** For every input: no `u64` operation of the real function
+    overflows (no subtraction underflows, no sum exceeds `u64::MAX`, no shift amount reaches 64); it
+    returns `None` exactly on words with at most one set bit (the parallel bit count is correct), and
+    otherwise a position below 64 — so `(1 << average_bit) - 1` in `split` never shifts by 64. -/
+theorem level_c_average_ones (n : Nat) :
+    averageOnes64C n = some (averageOnes64 n) ∧
+    (n < 2 ^ 64 → (averageOnes64 n = none ↔ (bits n).length ≤ 1) ∧ ∀ a, averageOnes64 n = some a → a < 64) :=
+  ⟨averageOnes64C_eq n, fun h => avgOK_real n h⟩
+
+/-- **C07, Level C, split.** The word-level `BitProducer::split` with the real `average_ones`
+    commutes with the abstraction: on every producer satisfying the word invariant, for every number
+    of split levels, its two products abstract to the products of the Level-B `split` (with the
+    `pick` the real `average_ones` induces), and both satisfy the word invariant again. -/
+theorem level_c_split (WL : WLayers) (hL : WL.OK) (splits : Nat) (s : WIt) (hs : s.OK) :
+    ((wsplit WL averageOnes64 splits s).1.toIt, (wsplit WL averageOnes64 splits s).2.map WIt.toIt) =
+      HiBitSet.split WL.toLayers (pickOf averageOnes64) splits s.toIt ∧
+    (wsplit WL averageOnes64 splits s).1.OK ∧
+    (∀ o, (wsplit WL averageOnes64 splits s).2 = some o → o.OK) :=
+  wsplit_refines hL avgOK_real splits hs
+
+/-- Hence the word-level producer (`fold_with` drains the word-level `BitIter`, `split` as above)
+    meets the splitter contract of Level A on every producer reachable from a fresh iterator. -/
+theorem level_c_splitOK (WL : WLayers) (hL : WL.OK) : SplitOK (wordSplitter WL) (WordInv WL) :=
+  wordSplitOK hL
+
+/-- Level C end to end: on word-level layers representing the joined mask, for every split tree the
+    leaves of the word-level splitting algorithm, each drained by the word-level iterator, partition
+    the sequential key list. -/
+theorem level_c_leaves (WL : WLayers) (hL : WL.OK) (h : WF WL.toLayers) (m : Mask)
+    (hb : m.Bdd MAXIDX) (hrep : ∀ i, i < MAXIDX → WL.toLayers.contains i = m.mem i) (t : SplitTree) :
+    ((leaves (wordSplitter WL) t (wfresh WL)).map (wordSplitter WL).keys).flatten.Perm
+      (m.toList MAXIDX) := by
+  have hi := wordInv_fresh hL h
+  have := (leaves_ok _ _ (wordSplitOK hL) t _ hi).1
+  rw [wordSplitter_keys hL hi, wfresh_toIt, items_fresh_eq h] at this
+  rw [Mask.toList_eq_filter MAXIDX m (fun _ => hb)]
+  have e : (List.range (B * B * B * B)).filter WL.toLayers.contains = (List.range MAXIDX).filter m.mem := by
+    apply List.filter_congr
+    intro i hi
+    exact hrep i (List.mem_range.mp hi)
+  rw [← e]
+  exact this
+
+/-- **C07 (a) at Level C, end to end.** For every world whose bit sets are machine words (`WLWorld`)
+    representing the Level-A world, every member list and every split tree: the parallel join driven
+    by the word-level `BitProducer` (real `split`, real `average_ones`, word-level `BitIter` in
+    `fold_with`) over the word-level tuple mask delivers a permutation of the sequential join's items. -/
+theorem level_c_par_perm_seq (wl : WLWorld) (hwl : wl.OK) (w : JWorld) (h : LRepr wl.toLWorld w)
+    (hw : w.Bdd MAXIDX) (f : Nat → Int → Int) (ms : List Member) (t : SplitTree) :
+    ∃ outs w' seq wseq,
+      parJoin f (wordSplitter (wtupleLayers wl ms)) w ms (wfresh (wtupleLayers wl ms)) t
+        = .ok (outs, w') ∧
+      join MAXIDX f w ms = .ok (seq, wseq) ∧ outs.flatten.Perm seq := by
+  obtain ⟨href, hok⟩ := wtupleLayers_refines wl hwl ms
+  obtain ⟨hwf, hrep⟩ := tupleLayers_represents h ms
+  rw [← href] at hwf hrep
+  have hi := wordInv_fresh hok hwf
+  have hk : (wordSplitter (wtupleLayers wl ms)).keys (wfresh (wtupleLayers wl ms))
+      = (tupleMask w ms).toList MAXIDX := by
+    rw [wordSplitter_keys hok hi, wfresh_toIt, items_fresh_eq hwf,
+      Mask.toList_eq_filter MAXIDX _ (fun _ => tupleMask_bdd hw ms)]
+    apply List.filter_congr
+    intro i hi
+    exact hrep i (List.mem_range.mp hi)
+  obtain ⟨outs, w', seq, wseq, h1, h2, h3, _⟩ :=
+    par_perm_seq _ _ (wordSplitOK hok) MAXIDX f w ms _ hi hk t
+  exact ⟨outs, w', seq, wseq, h1, h2, h3⟩
+
+/-! #### Non-vacuity at Level C -/
+
+/-- The word-level `BitSet` of {3, 63, 64, 65, 4095, 4096, 4097, 262143, 262144} (the set of `exL`). -/
+def exWL : WLayers :=
+  wlayersAfter [(true, 3), (true, 63), (true, 64), (true, 65), (true, 4095), (true, 4096), (true, 4097),
+    (true, 262143), (true, 262144)]
+
+/-- One word-level `split` of the fresh producer cuts at layer 3 (bits 0 and 1: `average_ones = 1`):
+    the masks and prefixes of both halves. -/
+example :
+    (match wsplit exWL averageOnes64 3 (wfresh exWL) with
+     | (a, some b) => (a.m3, a.p2, b.m3, b.p2)
+     | _ => (0, 0, 0, 0)) = (1, 0, 2, 64) := by decide +kernel
+
+/-- A second split of the lower half descends through the single layer-3 bit and cuts layer 2
+    (bits 0, 1, 63 of `layer2[0]`: ⌈3/2⌉ stay) — keys 3 … 4097 | 262143. -/
+example :
+    (match wsplit exWL averageOnes64 3 (wsplit exWL averageOnes64 3 (wfresh exWL)).1 with
+     | (a, some b) => (a.m3, a.m2, a.p1, b.m2, b.p1, b.p2)
+     | _ => (0, 0, 0, 0, 0, 0)) = (0, 3, 0, 0x8000000000000000, 63 * 64, 0) := by decide +kernel
+
+/-- The real `average_ones` picks the position the Level-B examples use (`avgReal`). -/
+example : [[0, 1], [0, 1, 63], [3, 63], [0, 62, 63], [5, 6, 7, 8, 9]].map (pickOf averageOnes64) =
+    [[0, 1], [0, 1, 63], [3, 63], [0, 62, 63], [5, 6, 7, 8, 9]].map avgReal := by decide +kernel
+
+end LevelC
 
 end SpecsModel.C07
